@@ -16,7 +16,7 @@ use neurons::tensor::Tensor;
 
 pub fn meta(_ctx: &Ctx) -> Meta {
     Meta {
-        rule: "ALL (N,B,E) with N in 1..6, B in 1..7 (B=1, B not dividing N, B=N, B>N), E in 1..3, plus (N,B) in {(64,64),(65,64),(65,65),(70,128),(130,65),(130,100),(129,64)} x networks {dense-linear on one-hot inputs (sample i touches column i only), dense+bias tanh -> dense, conv -> dense, dense -> feedback[dense]x2 -> dense} x optimizers {SGD, SGDM, Adam, RMSprop} x objectives {MSE, AE}; pairwise different samples. Oracle: reference trainer (consecutive groups in order, per-sample gradients at the pre-step weights summed, one optimizer step per group with step number = epoch, loss = mean over groups of mean per-sample loss) vs learn()'s final weights and returned loss vector. A state is the weight vector after each optimizer step; non-trivial = runs with >= 2 groups or >= 2 samples per group".into(),
+        rule: "ALL (N,B,E) with N in 1..6, B in 1..7 (B=1, B not dividing N, B=N, B>N), E in 1..3, plus (N,B) in {(64,64),(65,64),(65,65),(70,128),(130,65),(130,100),(129,64)} x networks {dense-linear on one-hot inputs (sample i touches column i only), dense+bias tanh -> dense, conv -> dense, dense -> feedback[dense]x2 -> dense} x optimizers {SGD, SGDM, Adam, RMSprop} x objectives {MSE, AE}; pairwise different samples; also two consecutive learn() calls on the same network (16 settings x 4 phase pairs). Oracle: reference trainer (consecutive groups in order, per-sample gradients at the pre-step weights summed, one optimizer step per group with step number = epoch, loss = mean over groups of mean per-sample loss) vs learn()'s final weights and returned loss vector. A state is the weight vector after each optimizer step; non-trivial = runs with >= 2 groups or >= 2 samples per group".into(),
         bound: "N <= 6, B <= 7, E <= 3; complete product".into(),
         exhaustive: true,
         assumptions: vec![
@@ -182,14 +182,21 @@ pub fn check(seed: u64, case: &Kv, rep: &mut Report) {
     };
     lib.set_objective(o.lib(), None);
     lib.set_optimizer(ospec.lib());
-    let learned = guard(|| lib.learn(&xr, &tr, None, b, e as i32, None));
-    let (train_loss, _, _) = match learned {
-        Ok(x) => x,
-        Err(er) => {
-            rep.violate("C04 learn panics", crate::util::first_line(&er), case);
-            return;
+    // one or two consecutive learn() calls on the same network (optimizer state survives, step numbers restart)
+    let mut phases: Vec<(usize, usize)> = vec![(b, e)];
+    if let (Some(b2), Some(e2)) = (case.opt("b2"), case.opt("e2")) {
+        phases.push((b2.parse().unwrap(), e2.parse().unwrap()));
+    }
+    let mut train_loss: Vec<f32> = Vec::new();
+    for &(pb, pe) in &phases {
+        match guard(|| lib.learn(&xr, &tr, None, pb, pe as i32, None)) {
+            Ok((t, _, _)) => train_loss.extend(t),
+            Err(er) => {
+                rep.violate("C04 learn panics", crate::util::first_line(&er), case);
+                return;
+            }
         }
-    };
+    }
     let got = match libnet::get_params(&lib) {
         Ok(p) => p,
         Err(er) => {
@@ -211,6 +218,8 @@ pub fn check(seed: u64, case: &Kv, rep: &mut Report) {
     // own update (Feedback::update is public) — only plain layers are stepped by hand
     let mut want_loss: Vec<f64> = Vec::new();
     let nl = net.layers.len();
+    for &(b, e) in &phases {
+    let groups = (n + b - 1) / b;
     for epoch in 1..=e {
         let mut loss_epoch = 0.0f64;
         let mut start = 0;
@@ -296,6 +305,8 @@ pub fn check(seed: u64, case: &Kv, rep: &mut Report) {
         }
         want_loss.push(loss_epoch / groups as f64);
     }
+    }
+    let e: usize = phases.iter().map(|p| p.1).sum();
     let _ = has_fb;
 
     // --- compare ---
@@ -351,6 +362,15 @@ pub fn cases() -> Vec<Kv> {
                         }
                     }
                 }
+            }
+        }
+    }
+    // two consecutive learn() calls on the same network: the optimizer's running statistics carry over, the step
+    // numbers start again at 1
+    for (name, _) in nets() {
+        for ospec in opts() {
+            for (n, b, e, b2, e2) in [(5usize, 2usize, 1usize, 3usize, 2usize), (4, 4, 2, 1, 1), (3, 2, 2, 2, 2), (6, 7, 1, 4, 1)] {
+                out.push(Kv::new().put("net", name).put("opt", ospec.name()).put("obj", "MSE").put("n", n).put("b", b).put("e", e).put("b2", b2).put("e2", e2));
             }
         }
     }
